@@ -537,7 +537,7 @@ func runScenario(cfg Config, sc Scenario, free int) *Result {
 		}
 	}, "a", actor.WithID(wroot+"w"))
 	// make sure the subscription is in place before the scenario starts (same inbox, FIFO)
-	barrier := make(chan struct{})
+	barrier := make(chan struct{}, 1) // (buffered: the event may get there before this goroutine starts waiting)
 	b := e.SpawnFunc(func(c *actor.Context) {
 		if _, ok := c.Message().(actor.DeadLetterEvent); ok {
 			select {
@@ -562,7 +562,7 @@ func runScenario(cfg Config, sc Scenario, free int) *Result {
 					in.Add(1)
 					<-crowdRelease
 				}
-			}, "crowd", actor.WithID(fmt.Sprint(k)))
+			}, "crowd", actor.WithID(fmt.Sprint(k)), actor.WithInboxSize(2))
 			e.Send(p, ping{})
 		}
 		for until := time.Now().Add(2 * time.Second); in.Load() < crowdSize && time.Now().Before(until); {
@@ -907,8 +907,15 @@ func runScenario(cfg Config, sc Scenario, free int) *Result {
 		a.reply <- grant{abandon: true}
 	}
 	go func() {
-		for a := range h.arrive {
-			a.reply <- grant{abandon: true}
+		// late arrivals are sent away; after a quiet while this goroutine ends so that the scenario's engine can be
+		// collected (thousands of scenarios run in one process)
+		for {
+			select {
+			case a := <-h.arrive:
+				a.reply <- grant{abandon: true}
+			case <-time.After(3 * time.Second):
+				return
+			}
 		}
 	}()
 	return res
